@@ -1,5 +1,5 @@
 (* C06 - what a step of a (theory-free) program is expected to look like when parsed back.  Definitions only. *)
-Require Import V.Lib.Base V.Lib.Calls V.C06.Model V.C06.RefParse.
+Require Import V.Lib.Base V.Lib.Calls V.Lib.Dec V.Gen.Consts_C06 V.C06.Model V.C06.RefParse.
 Local Open Scope Z_scope.
 
 Definition lit_of (z : Z) : bool * Z := (z <? 0, Z.abs z).
@@ -71,3 +71,188 @@ Definition call_ok (c : call) : Prop :=
   | _ => False
   end.
 Definition names_ok (nm : names_t) : Prop := forall a s, lookup a nm = Some s -> good_name s.
+
+(* ====================== theory atoms ====================== *)
+(* canonical text of what the parser reads at an atom position (the spelling the writer uses) *)
+Definition bracket_of (k : Z) : Z * Z := match assoc k tuple_parens with Some p => p | None => (0, 0) end.
+Fixpoint show_t (t : ttree) : list Z :=
+  match t with
+  | TN n => print_Z n
+  | TS s => s
+  | TF f args => show_t f ++ 40 :: sep_list (fun x => x) s_list_sep (map show_t args) ++ [41]
+  | TT k args => fst (bracket_of k) :: sep_list (fun x => x) s_list_sep (map show_t args) ++ [snd (bracket_of k)]
+  | TU o a => o ++ show_t a
+  | TB o a b => show_t a ++ [32] ++ o ++ [32] ++ show_t b
+  end.
+Definition show_lit0 (x : glit (list Z)) : list Z := (if fst x then s_not else []) ++ snd x.
+Definition show_elem (e : telemt) : list Z :=
+  sep_list (fun x => x) s_list_sep (map show_t (fst e)) ++
+  match snd e with [] => [] | _ => s_cond ++ sep_list show_lit0 s_list_sep (snd e) end.
+Definition show_ta (a : tatomt) : list Z :=
+  [38] ++ show_t (tt_name a) ++ [123] ++ sep_list (fun x => x) s_telem_sep (map show_elem (tt_elems a)) ++ [125] ++
+  match tt_guard a with None => [] | Some (o, r) => [32] ++ show_t o ++ [32] ++ show_t r end.
+Definition show (p : patom) : list Z := match p with PN n => n | PT t => show_ta t end.
+
+(* ---- the shapes whose spelling can be read back (everything else: see c06_theory_structure_refuted) ---- *)
+Definition good_sym (s : list Z) : bool := match s with c :: r => is_sym_start c && forallb is_ident_char r | [] => false end.
+Definition good_op (o : list Z) : bool := negb (nilb o) && forallb is_sop o.
+Definition is_opterm (t : ttree) : bool := match t with TU _ _ | TB _ _ _ => true | _ => false end.
+(* the argument of a prefix operator: no operator term; not a negative number; not a number at all behind "-" *)
+Definition un_arg_ok (o : list Z) (a : ttree) : bool :=
+  negb (is_opterm a) && match a with TN n => (0 <=? n) && negb (list_eqb o [45]) | _ => true end.
+Fixpoint unamb (t : ttree) : bool :=
+  match t with
+  | TN _ => true
+  | TS s => good_sym s
+  | TF f args => match f with TS s => good_sym s | _ => false end && forallb unamb args
+  | TT k args => match assoc k tuple_parens with Some _ => true | None => false end && forallb unamb args
+  | TU o a => good_op o && un_arg_ok o a && unamb a
+  | TB o a b => good_op o && negb (is_opterm a) && negb (is_opterm b) && unamb a && unamb b
+  end.
+Definition unamb_elem (e : telemt) : bool :=
+  (negb (nilb (fst e)) || negb (nilb (snd e))) && forallb unamb (fst e) && forallb (fun x => good_nameb (snd x)) (snd e).
+Definition unamb_ta (a : tatomt) : bool :=
+  unamb (tt_name a) && negb (is_opterm (tt_name a)) && forallb unamb_elem (tt_elems a) &&
+  match tt_guard a with None => true | Some (o, r) => match o with TS s => good_op s | _ => false end && unamb r end.
+Definition pok (p : patom) : Prop := match p with PN n => good_nameb n = true | PT t => unamb_ta t = true end.
+Definition is_plain (p : patom) : Prop := match p with PN _ => True | PT _ => False end.
+
+(* ---- the term structure stored in the writer's theory tables ---- *)
+Fixpoint map_opt {A B} (f : A -> option B) (l : list A) : option (list B) :=
+  match l with
+  | [] => Some []
+  | x :: r => match f x with Some y => match map_opt f r with Some ys => Some (y :: ys) | None => None end | None => None end
+  end.
+Fixpoint tree_of (T : list (option tterm)) (fuel : nat) (id : Z) : option ttree :=
+  match fuel with
+  | O => None
+  | S f =>
+      match nth_opt T id with
+      | None => None
+      | Some (TNum n) => Some (TN n)
+      | Some (TSym s) => Some (TS (cut0 s))
+      | Some (TComp base args) =>
+          match map_opt (tree_of T f) args with
+          | None => None
+          | Some ts =>
+              if 0 <=? base then
+                match nth_opt T base, tree_of T f base with
+                | Some x, Some fx =>
+                    let isop := match x with TSym s => is_op (hd 0 (cut0 s)) | _ => false end in
+                    match ts with
+                    | [a] => Some (if isop then TU (show_t fx) a else TF fx ts)
+                    | [a; b] => Some (if isop then TB (show_t fx) a b else TF fx ts)
+                    | _ => Some (TF fx ts)
+                    end
+                | _, _ => None
+                end
+              else match assoc base tuple_parens with Some _ => Some (TT base ts) | None => None end
+          end
+      end
+  end.
+(* a term is referentially consistent and acyclic iff some fuel unfolds it (ProofsTheory.tree_of_bound: then length T + 1 does) *)
+Definition acyclic_term (T : list (option tterm)) (id : Z) : Prop := exists h t, tree_of T h id = Some t.
+
+Definition lit0_of (nm : names_t) (z : Z) : glit (list Z) := (z <? 0, name_of nm (Z.abs z)).
+Definition elem_of (s : wst) (nm : names_t) (fuel : nat) (id : Z) : option telemt :=
+  match nth_opt (elems s) id with
+  | None => None
+  | Some e =>
+      match map_opt (tree_of (terms s) fuel) (te_terms e) with
+      | None => None
+      | Some ts =>
+          if te_cond e =? 0 then Some (ts, [])
+          else match get_condition (conds s) (te_cond e) with
+               | [] => None                                   (* a condition id that denotes no literals: never built by addCondition *)
+               | c => Some (ts, map (lit0_of nm) c)
+               end
+      end
+  end.
+Definition tatom_of (s : wst) (nm : names_t) (a : tatom) : option tatomt :=
+  let fuel := S (length (terms s)) in
+  match tree_of (terms s) fuel (ta_term a), map_opt (elem_of s nm fuel) (ta_elems a) with
+  | Some n, Some es =>
+      match ta_guard a with
+      | None => Some (mkTA n es None)
+      | Some (o, r) => match tree_of (terms s) fuel o, tree_of (terms s) fuel r with
+                       | Some to, Some tr => Some (mkTA n es (Some (to, tr)))
+                       | _, _ => None
+                       end
+      end
+  | _, _ => None
+  end.
+
+(* the theory atoms endStep visits, and the literals of their element conditions *)
+Definition frame (s : wst) : list tatom := skipn (f_atom s) (tatoms s).
+Definition frame_atoms (s : wst) : list Z := filter (fun a => negb (a =? 0)) (map ta_atom (frame s)).
+Definition elem_cond (s : wst) (id : Z) : list Z :=
+  match nth_opt (elems s) id with Some e => if te_cond e =? 0 then [] else get_condition (conds s) (te_cond e) | None => [] end.
+Definition frame_cond_atoms (s : wst) : list Z :=
+  flat_map (fun a => flat_map (fun e => map Z.abs (elem_cond s e)) (ta_elems a)) (frame s).
+Definition wlits (d : dir) : list Z :=
+  match d with
+  | DRule _ _ (WSum _ l) => map (fun x => Z.abs (fst x)) l
+  | DMin l _ => map (fun x => Z.abs (fst x)) l
+  | _ => []
+  end.
+Definition tat (s : wst) (nm : names_t) (a : tatom) : tatomt :=
+  match tatom_of s nm a with Some t => t | None => mkTA (TN 0) [] None end.
+
+(* a theory atom whose data is referentially consistent and acyclic (any fuel; ProofsTheory.fuel_sufficient) *)
+Definition tatom_consistent (s : wst) (a : tatom) : Prop :=
+  acyclic_term (terms s) (ta_term a) /\
+  (forall e, In e (ta_elems a) -> exists el, nth_opt (elems s) e = Some el /\
+        (forall t, In t (te_terms el) -> acyclic_term (terms s) t) /\
+        (te_cond el = 0 \/ get_condition (conds s) (te_cond el) <> [])) /\
+  (forall o r, ta_guard a = Some (o, r) -> acyclic_term (terms s) o /\ acyclic_term (terms s) r).
+
+(* ---- validity of the calls of a step, threaded through the state for TheoryData's "no redefinition inside a step" ---- *)
+Definition slot_free {A} (l : list (option A)) (fr : nat) (id : Z) : Prop :=
+  0 <= id /\ (nth_opt l id = None \/ (Z.to_nat id < fr)%nat).
+Definition tcall_ok (s : wst) (c : call) : Prop :=
+  match c with
+  | CTNum i _ | CTSym i _ | CTComp i _ _ => slot_free (terms s) (f_term s) i
+  | CTElem i _ _ => slot_free (elems s) (f_elem s) i
+  | CTAtom a _ _ | CTAtomG a _ _ _ _ => 0 <= a < 2147483648
+  | _ => call_ok c
+  end.
+Fixpoint calls_ok (s : wst) (cs : list call) : Prop :=
+  match cs with [] => True | c :: r => tcall_ok s c /\ calls_ok (snd (do_call s c)) r end.
+(* for totality the spelling of output names does not matter *)
+Definition tcall_okw (s : wst) (c : call) : Prop := match c with COutput _ _ => True | _ => tcall_ok s c end.
+Fixpoint calls_okw (s : wst) (cs : list call) : Prop :=
+  match cs with [] => True | c :: r => tcall_okw s c /\ calls_okw (snd (do_call s c)) r end.
+
+(* ---- name tables with theory atoms: every spelling is the canonical text of a readable atom ---- *)
+Definition names_ok2 (nm : names_t) : Prop := forall a s, lookup a nm = Some s -> exists p, pok p /\ s = show p.
+Definition plain_name (nm : names_t) (a : Z) : Prop := forall n, lookup a nm = Some n -> good_nameb n = true.
+(* what the reference parser reads at a position of atom a *)
+Definition sem (nm : names_t) (a : Z) : patom :=
+  match lookup a nm with
+  | Some s => match p_name s with Some (p, []) => p | _ => PN s end
+  | None => PN (s_xpre ++ print_nat a)
+  end.
+
+(* ---- hypotheses on the theory atoms endStep visits (state s1 = just before endStep) ---- *)
+(* totality: consistent acyclic data; no atom is both named and a theory atom, no atom carries two theory atoms (finding 1) *)
+Record frame_valid (s1 : wst) : Prop := {
+  fv_wf : forall a, In a (frame s1) -> tatom_consistent s1 a;
+  fv_unnamed : forall a, In a (frame_atoms s1) -> lookup a (names s1) = None;
+  fv_nodup : NoDup (frame_atoms s1) }.
+(* parse-back: in addition unambiguous spelling (no operator term directly below an operator term, ...: unamb_ta),
+   element conditions over plainly named atoms that are not theory atoms of this step (finding 2),
+   no theory atom in a weighted literal list (lit=weight would read as a guard) *)
+Record frame_ok (s1 : wst) : Prop := {
+  fo_wf : forall a, In a (frame s1) -> exists ta, tatom_of s1 (names s1) a = Some ta /\ unamb_ta ta = true;
+  fo_cond : forall c, In c (frame_cond_atoms s1) -> ~ In c (frame_atoms s1);
+  fo_unnamed : forall a, In a (frame_atoms s1) -> lookup a (names s1) = None;
+  fo_nodup : NoDup (frame_atoms s1);
+  fo_wplain : forall d a, In d (dirs s1) -> In a (wlits d) -> ~ In a (frame_atoms s1) /\ plain_name (names s1) a }.
+
+(* the statements expected for the theory atoms without an atom (directive theory atoms): facts over the atom's structure *)
+Definition tstmts (s1 : wst) : list (stmt patom) :=
+  map (fun a => SRule false [PT (tat s1 (names s1) a)] (BNormal [])) (filter (fun a => ta_atom a =? 0) (frame s1)).
+
+(* the names the property notes use *)
+Definition unambiguous_term : ttree -> bool := unamb.
+Definition unambiguous_atom : tatomt -> bool := unamb_ta.
